@@ -214,6 +214,7 @@ fn session(ctx: &Ctx, out: &mut Outcome, run_seed: u64, r: &mut Rng) {
         liveness: false,
         flood: false,
         max_len: 6000,
+        overload: false,
     };
     let mut mons: Vec<Box<dyn Monitor>> = vec![Box::new(SizeMonitor { prop: "C13" }), Box::new(CoverageMonitor::new())];
     let before = out.get("max.ack_ranges");
